@@ -24,22 +24,24 @@ _d = {}
 
 
 def prepare(ctx):
+    # two builds of the unmodified scheduler: the host's ABI and -funsigned-char (plain char is unsigned on the firmware's real target)
     b = ctx.build
-    inc = cbuild.FW_INC
-    objs = [cbuild.compile_obj(os.path.join(REPO, "src/target/firmware/layer1/tdma_sched.c"), os.path.join(b, "tdma_sched.o"), inc),
-            cbuild.compile_obj(os.path.join(VERIF, "c", "drv_tdma.c"), os.path.join(b, "drv_tdma.o"), inc)]
-    stubs = os.path.join(b, "stubs.c")
-    cbuild.weak_stubs(objs, stubs)
-    objs.append(cbuild.compile_obj(stubs, os.path.join(b, "stubs.o"), [], sanitize=False))
-    _d["exe"] = cbuild.link(objs, os.path.join(b, "drv_tdma"))
+    for sfx, uc in (("", []), ("_uc", ["-funsigned-char"])):
+        inc = cbuild.FW_INC + uc
+        objs = [cbuild.compile_obj(os.path.join(REPO, "src/target/firmware/layer1/tdma_sched.c"), os.path.join(b, "tdma_sched%s.o" % sfx), inc),
+                cbuild.compile_obj(os.path.join(VERIF, "c", "drv_tdma.c"), os.path.join(b, "drv_tdma%s.o" % sfx), inc)]
+        stubs = os.path.join(b, "stubs%s.c" % sfx)
+        cbuild.weak_stubs(objs, stubs)
+        objs.append(cbuild.compile_obj(stubs, os.path.join(b, "stubs%s.o" % sfx), [], sanitize=False))
+        _d["exe" + sfx] = cbuild.link(objs, os.path.join(b, "drv_tdma" + sfx))
 
 
-def drv():
+def drv(uchar=False):
     if "exe" not in _d:
         prepare(Ctx("C08", "quick", 1))
-    k = ("d", os.getpid())
+    k = ("d", os.getpid(), bool(uchar))
     if k not in _d:
-        _d[k] = cbuild.Driver(_d["exe"], max_line=(1 << 20) - 16)
+        _d[k] = cbuild.Driver(_d["exe_uc" if uchar else "exe"], max_line=(1 << 20) - 16)
     return _d[k]
 
 
@@ -72,7 +74,12 @@ def case_st(draw):
     if burst:
         off = draw(st.integers(0, 24))
         ops = [("S", off, i % 6, i, i, i, draw(PRIO)) for i in range(draw(st.integers(7, 11)))] + ops
-    return {"start": draw(st.one_of(st.integers(0, 60), st.sampled_from([0, 23, 24, 25, 49]))), "ops": ops}
+    if draw(st.integers(0, 5)) == 0:
+        # one item in EVERY bucket, a reset, then a full turn of the ring: whatever the reset left behind in any bucket runs
+        k = draw(st.integers(0, len(ops)))
+        fill = [("S", off, off % 6, off, 255 - off, 1000 + off, draw(PRIO)) for off in range(25)]
+        ops = ops[:k] + fill + [("R",)] + [("F",)] * 26 + ops[k:]
+    return {"start": draw(st.one_of(st.integers(0, 60), st.sampled_from([0, 23, 24, 25, 49]))), "ops": ops, "uchar": draw(st.booleans())}
 
 
 def expand(ops):
@@ -102,7 +109,7 @@ def oracle(case):
         else:
             toks.append(o[0])
     try:
-        out = drv().request(" ".join(toks))
+        out = drv(case.get("uchar", False)).request(" ".join(toks))
     except cbuild.DriverCrash as c:
         raise Violation("c08:memory:" + c.signature(), c.stderr[-600:])
     # the firmware prints diagnostics (puts/printf) on the same stream: keep protocol lines only
